@@ -41,7 +41,13 @@ PROPS = {
                      "beyond; the path index cache is shape-bounded; unique paths within an object list and within "
                      "one segment's entries are a precondition",
                 assumptions=["copy.copy is a shallow field copy", "ObjectListKey hash consistency (eq => equal hash) by "
-                             "construction of the xor fold"]),
+                             "construction of the xor fold",
+                             "unbounded loop harnesses: a path is listed at most once in one segment's metadata "
+                             "(precondition); the dictionary built from the carried-over list is over-approximated "
+                             "(a lookup may miss although a position matches); contracts of read_raw_data_index, "
+                             "_read_object_properties, _calculate_chunks used at their call sites (proved in their "
+                             "own harnesses); the composition of the per-entry steps into spec.inherit.denote of the "
+                             "whole list is machine-checked only up to the stated shape bound"]),
     "C03": dict(level="other",
                 claim="Every access path of TdmsChannel has the postcondition 'the window W(request) of the same value "
                       "sequence': __getitem__ dispatch, read_data (eager and lazy, typed / typeless / DAQmx), data, "
@@ -100,7 +106,9 @@ PROPS = {
                       "segment, groups before channels, stable channel order, index twin built from the same object "
                       "list; runtime contract: independent structural parser on random output.",
                 note="7 object lists x index on/off x 2 versions, names / values / lengths symbolic",
-                assumptions=["len(b''.join(xs)) = sum(len(x))"]),
+                assumptions=["len(b''.join(xs)) = sum(len(x))", "writer_offsets_all_objects: object_data_size and write_data are one contract pair (same size for one "
+                             "object; their agreement per data type is checked by writer_segment_write for the listed "
+                             "types); the segment fits the 64-bit offset fields (precondition)"]),
     "C09": dict(level="other",
                 claim="read_metadata walk: the stream cursor and segment position fed to every lead-in parse are the "
                       "data-file position and the index-stream position of segment k in the respective mode (any "
